@@ -106,8 +106,14 @@ def entropicRisk (a : α) (xs : List α) : Except Err α := do
 def entropicLoss (a : α) (xs : List α) : α :=
   -(sumL (xs.map (fun x => -(exp (-a * x)))) / (xs.length : α))
 
-/-- `EntropicLoss.cash`: `-log(mean exp(-a x)) / a` -/
+/-- `EntropicLoss.cash`, the documented closed form: `-log(mean exp(-a x)) / a` -/
 def entropicLossCash (a : α) (xs : List α) : α := -(log (entropicLoss a xs)) / a
+
+/-- `EntropicLoss.cash` as coded after the `fix:` commit for F7: `-entropic_risk_measure(x, a)`
+(the same quantity evaluated through `logsumexp`; Props/C06 `entropicLossCashStable_eq`) -/
+def entropicLossCashStable (a : α) (xs : List α) : Except Err α := do
+  let r ← entropicRisk a xs
+  pure (-r)
 
 /-- `OCE.forward`: `w - mean u(x + w)` -/
 def oce (u : α → α) (w : α) (xs : List α) : α :=
